@@ -288,10 +288,10 @@ def oracle_band(case):
 
 
 PARTS = [
-    Part("full", case_full, oracle_full, n_quick=60, n_thorough=400),
-    Part("single", case_single, oracle_single, n_quick=150, n_thorough=1500),
-    Part("band", case_band, oracle_band, n_quick=50, n_thorough=300),
-    Part("sweep", case_sweep, oracle_sweep, n_quick=40, n_thorough=400),
+    Part("full", case_full, oracle_full, n_quick=60, n_thorough=300),
+    Part("single", case_single, oracle_single, n_quick=150, n_thorough=1200),
+    Part("band", case_band, oracle_band, n_quick=50, n_thorough=200),
+    Part("sweep", case_sweep, oracle_sweep, n_quick=40, n_thorough=150),
 ]
 QUOTAS = {"single:above-nyquist": {"quick": 60, "thorough": 1000}, "distinctL>=3": {"quick": 100, "thorough": 2000}, "band:strict-subset": {"quick": 60, "thorough": 1000},
           "band:empty": {"quick": 3, "thorough": 50}, "win:kaiser": {"quick": 20, "thorough": 400}}
